@@ -78,6 +78,7 @@ def requirements(tier):
         "lambert:prograde": 1000 * k, "lambert:retrograde": 1000 * k,
         "lambert:short-way": 800 * k, "lambert:long-way": 800 * k,
         "lambert:class:orbit-arc": 1000 * k, "lambert:class:free-geometry": 500 * k,
+        "lambert:target-in-another-frame": 300 * k,
         "lambert:hook:newton-iterations-recorded": 3000 * k,
         "sso:mode-i": 2000 * k, "sso:mode-a": 2000 * k, "sso:mode-e": 2000 * k,
         "sso:node-rate-evaluated": 6000 * k, "sso:j2-propagator-drift": 500 * k, "sso:frozen": 200 * k,
@@ -246,6 +247,18 @@ def case_lambert(ctx, job, idx, rng, st):
         rec["F"] = None
         w = dict(body=body, mu=mu, r0=[float(x) for x in r0], r1=[float(x) for x in r1], dt=dt, prograde=flag,
                  transfer_angle_deg=ang / DEG, dt_over_parabolic=ratio, date0=[d, s], cls=cls)
+        # round-7 seed: the target may be handed over in another frame than the departure (the departure frame is the
+        # computation frame); same physical point, expressed there by the library's own frame change (C02's subject)
+        other = None
+        if body == "Earth" and idx % 4 == 0:
+            other = ("TEME", "ITRF", "MOD", "G50", "PEF")[(idx // 4 + (1 if flag else 0)) % 5]
+            if other != getattr(frame, "name", str(frame)):
+                orb1 = orb1.copy(frame=other)
+                ctx.count("lambert:target-in-another-frame")
+                ctx.count("lambert:target-frame:" + other)
+                w["target_frame"] = other
+            else:
+                other = None
         try:
             s0, s1 = L.lambert(orb0, orb1, prograde=flag)
         except Exception as exc:
@@ -265,8 +278,17 @@ def case_lambert(ctx, job, idx, rng, st):
         w.update(v0=a0[3:].tolist(), v1=a1[3:].tolist(), newton_iterations=n_newton, last_newton_step=last, z_iterates=rec["z"][-3:])
 
         # end points untouched, dates and frame kept
-        ctx.resid("lambert:end points kept (rel)", max(float(np.linalg.norm(a0[:3] - r0)) / nr0, float(np.linalg.norm(a1[:3] - r1)) / nr1), 1e-13,
-                  key="C19/lambert-end-points-moved", witness=w, msg="returned orbits do not keep the requested positions")
+        if other is not None:
+            f0, f1 = getattr(s0.frame, "name", str(s0.frame)), getattr(s1.frame, "name", str(s1.frame))
+            ctx.expect(f0 == f1 == getattr(frame, "name", str(frame)), "C19/lambert-result-not-in-departure-frame", dict(w, frames=[f0, f1]),
+                       f"target handed over in {other}: results are labelled {f0} / {f1}, the departure frame is the computation frame")
+            ctx.resid("lambert:end points kept, target from another frame (rel)",
+                      max(float(np.linalg.norm(a0[:3] - r0)) / nr0, float(np.linalg.norm(a1[:3] - r1)) / nr1), 1e-11,
+                      key="C19/lambert-target-frame-ignored", witness=w,
+                      msg=f"target handed over in {other}: the returned arrival state is not the same point expressed in the departure frame")
+        else:
+            ctx.resid("lambert:end points kept (rel)", max(float(np.linalg.norm(a0[:3] - r0)) / nr0, float(np.linalg.norm(a1[:3] - r1)) / nr1), 1e-13,
+                      key="C19/lambert-end-points-moved", witness=w, msg="returned orbits do not keep the requested positions")
         vv0 = a0[3:]
         if not np.all(np.isfinite(vv0)) or not np.all(np.isfinite(a1[3:])):
             ctx.violation("C19/lambert-non-finite-velocity", w, f"lambert returned non-finite velocities {vv0.tolist()}")
